@@ -11,7 +11,9 @@ Sources (non-test part, comments stripped) and what is read from each function b
                                                     points cache.side.*; then the derived caches in order
                                                     (seek index 201, message index 202, cache.side.indexed 203,
                                                      mr sidecar 204, cache.mr.done 205, comp sidecar 206)
-       rebuild_best_effort                          File::create -> 112, write_all -> 104, flush -> 105, points cache.rebuild.*
+       rebuild_best_effort                          File::create(&tmp_path) -> 115, write_all -> 116, flush -> 117,
+                                                    fs::rename(&tmp_path, &path) -> 118, points cache.rebuild.*
+                                                    (in place, before the S3-live repair: File::create -> 112, 104, 105)
   ripd/continuities.rs
        the 11 locked append_* functions             points cont.*, lock 121, next_seq.get 123, load_next_seq_for 124,
                                                     insert(.., seq) 122, event_log.append -> <EventLog::append>,
@@ -23,7 +25,7 @@ Sources (non-test part, comments stripped) and what is read from each function b
                                                     the artifact write precedes append_compaction_checkpoint_created(
        save_index                                   fs::write -> 108, fs::rename -> 109, points idx.*
        load_next_seq_for                            last_seq( 130, try_read_last_seq( 131, replay_stream( 132,
-                                                    rebuild_best_effort( 133, replay_events( 134
+                                                    rebuild_best_effort( 133, replay_events_locked( 134
   ripd/compaction_summary.rs, handoff_context_bundle.rs   write_blob_atomic: fs::write -> 110, fs::rename -> 111, points art.*
 
 Emits coq/Gen/CrashEffects.v: the lists, `gen_ver` (which code version the source is: one-write truth append,
@@ -239,7 +241,17 @@ def extract(repo):
     g["rebuild"] = []
     body = fn_body(cache, "rebuild_best_effort")
     if body is not None:
-        t = tokens(body, [point_pat(set(range(61, 65))), (r"File::create\(", 112), (r"\.write_all\(", 104), (r"\.flush\(\)", 105)])
+        # the failure branch (a write, the flush or the rename failed: both files are removed, readers fall back to the
+        # log) is not a crash path; its exact shape is taken out, anything else that removes a file stays an unknown effect
+        fail_branch = re.compile(r"if\s*!\s*complete\s*\|\|\s*(fs::rename\(\s*&tmp_path\s*,\s*&path\s*\))\s*\.is_err\(\)\s*\{\s*"
+                                 r"let\s+_\s*=\s*fs::remove_file\(\s*&tmp_path\s*\)\s*;\s*let\s+_\s*=\s*fs::remove_file\(\s*&path\s*\)\s*;\s*return\s*;\s*\}")
+        body = fail_branch.sub(lambda m: m.group(1) + ";", body)
+        if re.search(r"File::create\(\s*&tmp_path\s*\)", body):
+            # temporary file + rename (the S3-live repair): 115 create tmp, 116 write, 117 flush, 118 rename over the sidecar
+            t = tokens(body, [point_pat(set(range(61, 65))), (r"File::create\(\s*&tmp_path\s*\)", 115), (r"\.write_all\(", 116), (r"\.flush\(\)", 117),
+                              (r"fs::rename\(\s*&tmp_path\s*,\s*&path\s*\)", 118)])
+        else:
+            t = tokens(body, [point_pat(set(range(61, 65))), (r"File::create\(", 112), (r"\.write_all\(", 104), (r"\.flush\(\)", 105)])
         g["rebuild"] = flat(t)
 
     # ---- save_index, write_blob_atomic (both copies)
@@ -331,7 +343,9 @@ def extract(repo):
     # ---- load_next_seq_for
     body = fn_body(cont, "load_next_seq_for")
     g["load_next"] = flat(tokens(body, [(r"\.last_seq\(", 130), (r"\.try_read_last_seq\(", 131), (r"\.replay_stream\(", 132),
-                                        (r"\.rebuild_best_effort\(", 133), (r"self\.replay_events\(", 134)])) if body is not None else []
+                                        (r"\.rebuild_best_effort\(", 133),
+                                        # load_next_seq_for runs under the seq mutex: the variant that does not take it again
+                                        (r"self\.replay_events_locked\(", 134), (r"self\.replay_events\(", 199)])) if body is not None else []
     return g, notes
 
 
